@@ -1608,6 +1608,14 @@ class Frame:
                 c.kind = "node"
                 return [(p, c)]
             return [(p, Sym("getattr", tuple(pos)))]
+        if short == "set_dotted_key" and len(pos) == 3 and not kw and getattr(node, "args", None) and isinstance(node.args[2], ast.Name):
+            # confectioner.set_dotted_key(key, value, d) on a dictionary built up locally: d now holds key -> value (nested)
+            cur = p.env.get(node.args[2].id)
+            if isinstance(cur, Sym) and (cur.head in ("dict{}", "dict") or (cur.head in ("call:dict", "call:copy") and len(cur.args) <= 1)):
+                base = cur.args if cur.head == "dict" else (tuple(Sym("dstar", (a_,)) for a_ in cur.args))
+                p.env[node.args[2].id] = Sym("dict", tuple(base) + (Sym("dotted-item", (pos[0], pos[1])),))
+            self.ev(p, "call", text=name, args=tuple(pos), line=line)
+            return [(p, Const(None))]
         if short == "setattr" and len(pos) == 3 and not kw:
             obj, nm, val = pos
             src = ast.unparse(node.args[0]) if getattr(node, "args", None) else "?"
